@@ -224,6 +224,7 @@ struct cp_data_t
 
    size_t            lang_flags;        //! defines the language of the source input
    bool              lang_forced;       //! overwrites automatic language detection
+   size_t            lang_flags_forced; //! the language flags given with -l
 
    bool              unc_off;
    bool              unc_off_used;       //! true if the `disable_processing_cmt` option was actively used in the processed file
